@@ -130,6 +130,30 @@ fn lib_verify<const N: usize>(ty: Ty, bytes: &[u8], p: &Params<N>, ch: Challenge
     }
 }
 
+/// one decoded proof object verified several times in a row (right challenge first, then others): the
+/// verdict is a function of the arguments of each call, not of what the object was asked before
+fn lib_verify_seq<const N: usize>(ty: Ty, bytes: &[u8], p: &Params<N>, chs: &[Challenge]) -> Result<Vec<bool>, String> {
+    Ok(match (ty, p) {
+        (Ty::ComG1, Params::P1(pp)) => {
+            let o = dec::<CommitmentProof<G1Projective, N>>(bytes)?;
+            chs.iter().map(|ch| o.verify_knowledge_of_opening(pp, *ch)).collect()
+        }
+        (Ty::ComG2, Params::P2(pp)) => {
+            let o = dec::<CommitmentProof<G2Projective, N>>(bytes)?;
+            chs.iter().map(|ch| o.verify_knowledge_of_opening(pp, *ch)).collect()
+        }
+        (Ty::Sig, Params::Pk(pk)) => {
+            let o = dec::<SignatureProof<N>>(bytes)?;
+            chs.iter().map(|ch| o.verify_knowledge_of_signature(pk, *ch)).collect()
+        }
+        (Ty::Req, Params::Pk(pk)) => {
+            let o = dec::<SignatureRequestProof<N>>(bytes)?;
+            chs.iter().map(|ch| o.verify_knowledge_of_opening(pk, *ch).is_some()).collect()
+        }
+        _ => return Err("harness: parameter kind does not match proof type".into()),
+    })
+}
+
 /// the Fiat-Shamir challenge the library derives from the (decoded) proof
 fn fs_challenge<const N: usize>(ty: Ty, bytes: &[u8], salt: &[u8]) -> Result<Challenge, String> {
     let cb = ChallengeBuilder::new();
@@ -750,6 +774,24 @@ fn proof_case<const N: usize>(c: &mut Ctx, ty: Ty, inst: usize) {
             }
         }
 
+        // 3a. the same object asked repeatedly: right, wrong, right, wrong
+        {
+            let other = ChallengeBuilder::new().with_bytes(name.as_bytes()).with_bytes(b"/other").finish();
+            let seq = [ch, other, ch, other];
+            match lib_verify_seq(ty, &honest.bytes, &params, &seq) {
+                Ok(rs) => {
+                    for (i, (r, chx)) in rs.iter().zip(seq.iter()).enumerate() {
+                        if let Ok(v) = oracle(ty, &honest, &pa, &chx.to_scalar()) {
+                            let label = format!("same-object-call{}", i);
+                            c.distinct(&key(&label));
+                            compare(c, &Obs { ty, n: N, class: &label, label: &label, must_reject: i % 2 == 1 }, *r, v, || base_detail.clone());
+                        }
+                    }
+                }
+                Err(e) => c.inconclusive(&e),
+            }
+        }
+
         // 4. wrong parameters: a fresh set / key, then every parameter atom replaced in turn
         {
             let st2 = Setup::<N>::new(&mut rng);
@@ -968,6 +1010,33 @@ fn degenerate<const N: usize>(c: &mut Ctx, st: &Setup<N>, rng: &mut R, msg: [Sca
                 _ => "scripted:commitment-scalar=0".to_string(),
             };
             check(c, &class, &p, ch, Some(false));
+        }
+    }
+    // blinding factor related to the key and the message: bf = -(x + sum y_i m_i) makes the blinded
+    // sigma2' the identity while sigma1' is not; all three conjuncts hold, so the proof is a valid one
+    if let Ok(kt) = trace(&st.kp) {
+        let x = kt.fget("sk/x").ok().and_then(|b| sc(&b));
+        let mut acc = x;
+        for i in 0..N {
+            let y = kt.fget(&format!("sk/ys/[{}]", i)).ok().and_then(|b| sc(&b));
+            acc = match (acc, y) {
+                (Some(a), Some(y)) => Some(a + y * msg[i]),
+                _ => None,
+            };
+        }
+        if let Some(sum) = acc {
+            let mut pat = (Scalar::zero() - sum).to_bytes().to_vec();
+            pat.extend_from_slice(&[0u8; 32]);
+            let mut s = ScriptRng::new(seed);
+            s.inject(draws64[0], pat);
+            let b = SignatureProofBuilder::generate_proof_commitments(&mut s, Message::new(msg), sig, &[None; N], pk);
+            if s.consumed == 1 {
+                let ch = ChallengeBuilder::new().with(&b).finish();
+                let p = b.generate_proof_response(ch);
+                let s2_is_identity = trace(&p).ok().and_then(|t| t.fget("blinded_signature/sigma2").ok()).map(|b| b == identity1).unwrap_or(false);
+                c.count(if s2_is_identity { "signature_proofs_with_identity_sigma2" } else { "related_blinding_factor_not_effective" }, 1);
+                check(c, "scripted:blinding-factor=-(x+sum y_i m_i)", &p, ch, Some(false));
+            }
         }
     }
     // Signature::randomize with randomizer 0, then an ordinary proof around the result
